@@ -135,6 +135,12 @@ def nodecfg_replay_job(job):
             if got_info != exp:
                 bad = dict(step=step, op=op, view="info", expected=exp, got=got_info)
                 break
+            # one connection per (sender, receiver): the sender's registry (outputs: what the threaded runtime, generate_graphs and apply_window
+            # read) must hold the very connection the receiver's registry (inputs: what phases and infos read) holds
+            stale = [(k, key) for k, n in nodes.items() for key, c in n.inputs.items() if c.output_node.outputs.get(k) is not c]
+            if stale:
+                bad = dict(step=step, op=op, view="registry", expected="sender.outputs[receiver] is receiver.inputs[key]", got=[list(x) for x in stale])
+                break
         results.append(dict(hist=hist, ok=bad is None, bad=bad))
     return dict(results=results)
 
